@@ -43,11 +43,11 @@ def run(ctx):
     sums = callv(A, ["core::iter::traits::iterator::Iterator::sum"])
     SUM = None
     g_sum = False
-    if len(sums) == 1:
-        SUM = N(sums[0][2])
-        # sum(map(iter(arg2), closure)) with closure = |b| b.len()
-        if SUM[0] == "call" and len(SUM[2]) == 1:
-            mp = SUM[2][0]
+
+    def is_len_sum(x):
+        """x = sum of len() over the slices of arg2, in a sum(map(..)) pipeline or an accumulating loop"""
+        if x[0] == "call" and len(x[2]) == 1 and ("Iterator>::sum" in str(x[1]) or cn(x[1]).endswith("Iterator::sum")):
+            mp = x[2][0]
             is_map = mp[0] == "call" and ("Iterator>::map" in str(mp[1]) or cn(mp[1]).endswith("Iterator::map"))
             it_ok = is_map and mp[2][0][0] == "call" and cn(mp[2][0][1]) == "core::slice::iter" and mp[2][0][2] == (arg(2),)
             if it_ok:
@@ -57,16 +57,59 @@ def run(ctx):
                     if len(cf) == 1:
                         rt, _ = an.of(F, cf[0]).ret()
                         n = N(rt) if rt is not None else None
-                        g_sum = n is not None and n[0] == "len" and n[1] in (("deref", arg(2)), arg(2), ("deref", ("deref", arg(2))))
-    ctx.check(g_sum, "N1", "sum", "additional_size is the sum of len() over the given slices", A.site(), how=G.show(sums[0][2])[:160] if sums else "",
-              why=G.show(sums[0][2])[:300] if sums else "no sum() call")
+                        return n is not None and n[0] == "len" and n[1] in (("deref", arg(2)), arg(2), ("deref", ("deref", arg(2))))
+            return False
+        if x[0] == "opq" and len(x) > 3 and x[1] == "phi":
+            # let mut total = 0; for s in slices { total += s.len() }
+            L = x[2]
+            be = b.back_edges()
+            cand = [(t_, h_) for (t_, h_) in be]
+            defs = [d for d in A.tb.defs.get(L, []) if not d[3]]
+            for (t_, h_) in cand:
+                lb_ = b.loop_blocks(h_, t_)
+                init = [d for d in defs if d[1] not in lb_]
+                upd = [d for d in defs if d[1] in lb_]
+                if len(init) != 1 or len(upd) != 1 or init[0][0] != "stmt" or upd[0][0] != "stmt":
+                    continue
+                st0 = b.stmts(init[0][1])[init[0][2]]
+                if N(A.tb.rvalue(st0["rv"], (init[0][1], init[0][2]), st0)) != ("c", 0):
+                    continue
+                st1 = b.stmts(upd[0][1])[upd[0][2]]
+                uv = N(A.tb.rvalue(st1["rv"], (upd[0][1], upd[0][2]), st1))
+                if not (uv[0] == "bin" and uv[1] == "Add"):
+                    continue
+                acc, ln_ = uv[2], uv[3]
+                if not (acc[0] == "opq" and acc[1] == "phi" and acc[2] == L):
+                    acc, ln_ = ln_, acc
+                if not (acc[0] == "opq" and acc[1] == "phi" and acc[2] == L and ln_[0] == "len"):
+                    continue
+                item = ln_[1]
+                item = item[1] if item[0] == "deref" else item
+                if not (item[0] == "fld" and item[1][0] == "dc" and item[1][1][0] == "call" and "Iterator>::next" in str(item[1][1][1])):
+                    continue
+                itr = item[1][1][2][0]
+                itr = itr[1] if itr[0] == "ref" else itr
+                for _ in range(3):
+                    if itr[0] == "call" and len(itr[2]) == 1 and ("IntoIterator" in str(itr[1]) or cn(itr[1]) == "core::slice::iter"):
+                        itr = itr[2][0]
+                nexts = [bb_ for bb_, tt in b.calls() if bb_ in lb_ and "Iterator>::next" in (M.callee_path(tt) or "") + str(M.callee_key(tt))]
+                if itr == arg(2) and len(nexts) == 1 and b.dominates(upd[0][1], t_):
+                    return True
+        return False
+    if len(sets) == 1:
+        tag_ = N(sets[0][2])[2][1]
+        if tag_[0] == "bin" and tag_[1] == "Add" and HS in (tag_[2], tag_[3]):
+            SUM = tag_[3] if tag_[2] == HS else tag_[2]
+            g_sum = is_len_sum(SUM)
+    ctx.check(g_sum, "N1", "sum", "additional_size is the sum of len() over the given slices", A.site(), how=G.show(SUM)[:160] if SUM else "",
+              why=G.show(sets[0][2])[:300] if sets else "no set_size() call")
     TAG = None
     g1 = False
     if len(sets) == 1 and SUM is not None:
         sv = N(sets[0][2])
         # set_size(&mut header, tag_size)
         TAG = sv[2][1]
-        g1 = TAG == ("bin", "Add", HS, SUM) and sv[2][0][0] in ("ref", "opq", "arg")
+        g1 = TAG in (("bin", "Add", HS, SUM), ("bin", "Add", SUM, HS)) and sv[2][0][0] in ("ref", "opq", "arg")
     ctx.check(g1, "N1", "set_size", "the header's size is set to size_of::<Header>() + sum of the content lengths", A.site(sets[0][0]) if sets else A.site(),
               how="set_size(&mut header, size_of Header + sum)", why=G.show(sets[0][2])[:300] if sets else "no set_size call")
     # ---- N2
@@ -139,10 +182,12 @@ def run(ctx):
             init = [d for d in defs if d[1] not in lb]
             upd = [d for d in defs if d[1] in lb]
             pn = G.ptr_norm(dst)
-            if len(init) == 1 and len(upd) == 1 and upd[0][0] == "stmt" and pn is not None:
-                iv = A.tb.call_value(b.term(init[0][1]), init[0][1]) if init[0][0] == "call" else \
-                    A.tb.rvalue(b.stmts(init[0][1])[init[0][2]]["rv"], (init[0][1], init[0][2]))
-                iv = N(iv)
+            # value of the carried variable on entry to the loop: read at the end of the loop's only outside predecessor
+            # (the variable may have been assigned several times before, e.g. one cursor used for header and body)
+            pre = [p_ for (p_, _l) in b.pred[head] if p_ not in lb]
+            if len(init) >= 1 and len(pre) == 1 and len(upd) == 1 and upd[0][0] == "stmt" and pn is not None:
+                iv = N(A.tb.read(L, (), (pre[0], len(b.stmts(pre[0])))))
+                init = [("stmt", pre[0], 0, ())]
                 st = b.stmts(upd[0][1])[upd[0][2]]
                 uv = N(A.tb.rvalue(st["rv"], (upd[0][1], upd[0][2]), st))
                 item_len = cnt
